@@ -388,6 +388,7 @@ func (s *Storer) GetAofWritter(r io.Reader, offset int64) (*AofWriter, error) {
 
 	aofSeg := &dataSetAof{
 		left: offset,
+		size: -1, // being written, like the segments opened by rotation
 	}
 	s.dataSetMux.Lock()
 	s.dataSet.AppendAof(aofSeg)
